@@ -75,7 +75,7 @@ def prodosPackTxt (v : EofLen) (f : FImg) (txt : Bytes) : Res FImg :=
   | none => .err
   | some dat =>
     if prodosTooLong v dat.length then .err
-    else .ok { desequence f dat with access := [prodosAccess], fsType := [4] }
+    else .ok { desequence f dat with access := [prodosAccess], fsType := [4], aux := [0, 0] }
 
 def prodosUnpackTxt (f : FImg) : Res Bytes :=
   .ok (prodosToUtf8 (beforeFirst 0 (sequenceLimited f (getEof f))))
